@@ -72,13 +72,20 @@ def build_harness(profile="verif"):
     t0 = time.time()
     env = dict(os.environ, CARGO_NET_OFFLINE="true")
     hd = _harness_dir()
-    p = subprocess.run(
-        ["cargo", "build", "--offline", "--profile", profile, "--bin", "exec"],
-        cwd=hd, env=env, stdout=subprocess.PIPE, stderr=subprocess.STDOUT, text=True)
+    if profile == "asan":
+        # AddressSanitizer build (nightly toolchain, release profile): out-of-bounds reads through raw pointers,
+        # which ub_checks do not see, abort the process like any other memory error
+        env["RUSTFLAGS"] = "-C target-cpu=native --cfg sux_verif --check-cfg cfg(sux_verif) -Zsanitizer=address"
+        cmd = ["cargo", "+nightly", "build", "--offline", "--release", "--target", "x86_64-unknown-linux-gnu",
+               "--target-dir", "target-asan", "--bin", "exec"]
+        exe = hd / "target-asan" / "x86_64-unknown-linux-gnu" / "release" / "exec"
+    else:
+        cmd = ["cargo", "build", "--offline", "--profile", profile, "--bin", "exec"]
+        exe = hd / "target" / profile / "exec"
+    p = subprocess.run(cmd, cwd=hd, env=env, stdout=subprocess.PIPE, stderr=subprocess.STDOUT, text=True)
     if p.returncode != 0:
         log(p.stdout[-6000:])
         raise ToolError("harness build failed (profile %s)" % profile)
-    exe = hd / "target" / profile / "exec"
     log("[build] profile=%s repo=%s %.1fs" % (profile, REPO, time.time() - t0))
     _built[profile] = exe
     return exe
@@ -156,6 +163,7 @@ def _run_chunk(exe, script_path, trace_path, episodes, wall_timeout, lo, hi):
     while start < n:
         try:
             p = subprocess.run([str(exe), str(script_path), str(trace_path), "--from", str(start), "--to", str(hi)],
+                               env=dict(os.environ, ASAN_OPTIONS="abort_on_error=1:detect_leaks=0:allocator_may_return_null=1"),
                                stdout=subprocess.PIPE, stderr=subprocess.PIPE, text=True,
                                timeout=max(1, t_end - time.time()))
         except subprocess.TimeoutExpired:
